@@ -172,8 +172,10 @@ Definition set_signer (st : cstore) (k : height) (v : bytes) : cstore :=
   {| recents := ins_by recent_lt k v (del_key k (recents st)); pending := pending st; cons := cons st |}.
 Definition del_signer (st : cstore) (k : height) : cstore :=
   {| recents := del_key k (recents st); pending := pending st; cons := cons st |}.
+(** store.go SetPendingValidators: the empty set marshals to no bytes and is stored as a MISSING entry
+    (GetPendingValidators reads a missing entry as the empty set) *)
 Definition set_pending (st : cstore) (v : list bytes) : cstore :=
-  {| recents := recents st; pending := Some v; cons := cons st |}.
+  {| recents := recents st; pending := match v with [] => None | _ => Some v end; cons := cons st |}.
 Definition set_cons (st : cstore) (k : height) (c : consstate) : cstore :=
   {| recents := recents st; pending := pending st; cons := ins_by cons_lt k c (del_key k (cons st)) |}.
 Definition del_cons (st : cstore) (k : height) : cstore :=
@@ -251,7 +253,11 @@ Section Model.
 
   Definition limit_of_vals (vals : list bytes) : N := len (sorted_vals vals) / 2 + 1.   (* len(snap.Validators)/2 + 1 *)
 
+  (** verifySeal: [number < limit || seen > number-limit] over the snapshot map.  Before the repair
+      c10316e the test was [seen > number-limit] alone ([recently_signed_old]): void for number < limit. *)
   Definition recently_signed (rs : list (height * bytes)) (signer : bytes) (number limit : N) : bool :=
+    existsb (fun e => bytes_eqb (snd e) signer && ((number <? limit) || (sub64 number limit <? fst e))) (snap_recents rs).
+  Definition recently_signed_old (rs : list (height * bytes)) (signer : bytes) (number limit : N) : bool :=
     existsb (fun e => bytes_eqb (snd e) signer && (sub64 number limit <? fst e)) (snap_recents rs).
 
   Definition inturn (cs : cstate) (signer : bytes) : bool :=
@@ -263,7 +269,8 @@ Section Model.
 
   (** verifyHeader + verifyCascadingFields + verifySeal up to (excluding) SetSigner:
       returns the signer.  No store write happens on this part. *)
-  Definition verify_pre (cs : cstate) (st : cstore) (h : header) : result bytes :=
+  Definition verify_pre_gen (rsf : list (height * bytes) -> bytes -> N -> N -> bool)
+             (cs : cstate) (st : cstore) (h : header) : result bytes :=
     match validate_basic h with                                          (* checkValidity; verifyHeader repeats it *)
     | RErr k => RErr k | RPanic => RPanic
     | ROk _ =>
@@ -287,10 +294,11 @@ Section Model.
       | Some signer =>
         if negb (bytes_eqb signer (to_addr (h_coinbase h))) then RErr 10
         else if negb (mem signer (map to_addr (c_vals cs))) then RErr 11
-        else if recently_signed (recents st) signer (h_num h) (limit_of_vals (c_vals cs)) then RErr 12
+        else if rsf (recents st) signer (h_num h) (limit_of_vals (c_vals cs)) then RErr 12
         else ROk signer
       end
     end.
+  Definition verify_pre := verify_pre_gen recently_signed.
 
   (** verifySeal after SetSigner: the difficulty must match the turn. *)
   Definition verify_post (cs : cstate) (h : header) (signer : bytes) : result unit :=
@@ -306,7 +314,14 @@ Section Model.
     | (k, c) :: _ => if add64 (cs_time c) (c_trust cs) <? bt then Some k else None
     | [] => None
     end.
+  (** Only the consensus state goes.  Before the repair 5f05f37 the recent-signer entry of the pruned
+      height was deleted with it ([prune_old]). *)
   Definition prune (bt : N) (cs : cstate) (st : cstore) : cstore :=
+    match prune_target bt cs st with
+    | Some k => del_cons st k
+    | None => st
+    end.
+  Definition prune_old (bt : N) (cs : cstate) (st : cstore) : cstore :=
     match prune_target bt cs st with
     | Some k => del_signer (del_cons st k) k
     | None => st
@@ -354,12 +369,13 @@ Section Model.
       path because SetSigner happens BEFORE the difficulty check (a rejected
       header can leave a recent-signer entry behind; the transaction wrapper
       [deliver] below discards it, as BaseApp does). *)
-  Definition check_header_and_update (bt : N) (cs : cstate) (st : cstore) (h : header)
+  Definition check_header_and_update_gen (rsf : list (height * bytes) -> bytes -> N -> N -> bool)
+             (prf : N -> cstate -> cstore -> cstore) (bt : N) (cs : cstate) (st : cstore) (h : header)
     : cstore * result (cstate * consstate) :=
     match get_cons st (hheight (c_header cs)) with
     | None => (st, RErr 105)
     | Some _ =>
-      match verify_pre cs st h with
+      match verify_pre_gen rsf cs st h with
       | RErr k => (st, RErr k)
       | RPanic => (st, RPanic)
       | ROk signer =>
@@ -367,10 +383,13 @@ Section Model.
         match verify_post cs h signer with
         | RErr k => (st1, RErr k)
         | RPanic => (st1, RPanic)
-        | ROk _ => update cs (prune bt cs st1) h
+        | ROk _ => update cs (prf bt cs st1) h
         end
       end
     end.
+  Definition check_header_and_update := check_header_and_update_gen recently_signed prune.
+  (** the code before the repairs c10316e and 5f05f37 (kept for Refuted/C09_refuted.v) *)
+  Definition check_header_and_update_old := check_header_and_update_gen recently_signed_old prune_old.
 
   (** client_state.go Status + keeper UpdateClient *)
   Definition active (bt : N) (cs : cstate) (st : cstore) : bool :=
